@@ -300,7 +300,11 @@ func (e *Engine) Run(t *tape.Tape, keep bool) *sim.Result {
 	// scenario family: 0 = any mix; 1 = callers that clone one shared base
 	// configuration with different targets, on programs whose package set depends
 	// on the target (build tags)
-	cfgMix := t.Draw(3) == 2
+	fam := t.Draw(5)
+	cfgMix := fam == 2
+	// family 3: callers with different word-size / alignment configurations, half
+	// of them on the program whose output depends on it
+	sizesMix := fam == 3
 	sc := &Scenario{Monitor: true}
 	sm := &sample{}
 	res.Sample = sm
@@ -319,6 +323,17 @@ func (e *Engine) Run(t *tape.Tape, keep bool) *sim.Result {
 				if (i+j)%2 == 0 || t.Draw(2) == 1 {
 					c.Prog = tagged
 				}
+			}
+			if sizesMix {
+				c.Cfg = []int{0, 3}[(i+j)%2]
+				if c.API == "FormatCode" || c.API == "GetCodeSyntax" {
+					c.API = "RunCode"
+				}
+				if t.Draw(2) == 0 {
+					c.Prog = sizesProg
+				}
+			} else if c.Cfg == 0 && c.API != "FormatCode" && c.API != "GetCodeSyntax" && t.Draw(6) == 0 {
+				c.Cfg = 3
 			}
 			if c.API == "RunCode" && c.Cfg == 1 {
 				c.Cfg = 0 // the embedded runner executes the default and the "unknown" targets
